@@ -95,6 +95,7 @@ class FakeWriter:
     def __init__(self, name="w"):
         self.name = name
         self.out = []  # every bytes object handed to write(), in order
+        self.attempts = []  # everything handed to write(), also after the transport failed / closed
         self.sink = None  # callable(bytes) for delivery bookkeeping
         self.closed = False
         self.broken = None  # exception class raised by drain() when set
@@ -109,6 +110,7 @@ class FakeWriter:
     def write(self, data):
         if not isinstance(data, (bytes, bytearray, memoryview)):
             raise TypeError(f"data argument must be a bytes-like object, not {type(data).__name__!r}")
+        self.attempts.append(bytes(data))
         if self.closed or self.broken:
             self.writes_after_close += 1
             return
@@ -265,6 +267,7 @@ def _mk_endpoint_classes():
             self.hb_in_logon = None
             self.gates = None  # scheduler gates for C14
             self.raise_filter = None  # callable(msg) -> bool: on_message raises after recording the delivery
+            self.send_on_state = None  # state name: the application sends an order from on_state_change(that state)
 
         async def _gate(self, name):
             g = self.gates
@@ -305,6 +308,12 @@ def _mk_endpoint_classes():
         async def on_state_change(self, st):
             self.states.append(st.name)
             await self._gate("on_state_change")
+            if self.send_on_state == st.name:
+                try:
+                    await self.send_msg(FIXMessage("D", {11: "fromhook", 55: "X"}))
+                    self.ev.append(("hook_send", "accepted"))
+                except Exception as e:  # noqa
+                    self.ev.append(("hook_send", type(e).__name__))
 
         async def should_replay(self, m):
             await self._gate("should_replay")
@@ -448,7 +457,7 @@ def prim_attrs(o, skip=()):
 
 HOOK_ATTRS = {
     "ev", "delivered", "states", "n_disconnect", "n_logon", "n_logout",
-    "replay_filter", "logon_on_connect", "gates", "hb_in_logon", "log", "raise_filter",
+    "replay_filter", "logon_on_connect", "gates", "hb_in_logon", "log", "raise_filter", "send_on_state",
 }
 
 
